@@ -411,10 +411,10 @@ CLAIM = dict(
           "sketch retains exactly the keys, theta and emptiness of the theta sketch fed the same keys (simulation by payload erasure, for all "
           "histories incl. trim/reset); the summary of every retained key is the update policy folded over every value offered with that "
           "key in arrival order; union / intersection / A-not-B select keys exactly as the C02 theorems state (they are proved for an arbitrary "
-          "payload and policy); filter keeps precisely the entries satisfying the predicate. Tie: differential correspondence on generated "
+          "payload and policy) and attach to every retained key the policy folded over the summaries of the inputs holding it, in presentation order (union: all inputs holding the key; intersection: all inputs); A-not-B keeps A's entries; filter keeps precisely the entries satisfying the predicate. Tie: differential correspondence on generated "
           "histories for three instantiations (non-commutative list-append trace, double sum, array-of-doubles 1-3 columns), each update sketch "
           "shadowed by a real Theta sketch, plus an oracle that recomputes every per-key fold from the history."),
-    note=("Modelled, not verified: hash-table layout; user-defined summaries with move semantics (lifecycle is C19); the combination of "
-          "summaries inside set operations is tied by correspondence + oracle (only key selection and update-side folds are theorems)."),
+    note=("Modelled, not verified: hash-table layout; user-defined summaries with move semantics (lifecycle is C19); array-of-doubles is covered "
+          "by the payload-homomorphism theorem instantiated with column projections (not stated per column)."),
     technique="Lean 4 simulation (payload erasure) + invariant proofs over operation lists + differential correspondence + per-key fold oracle",
     design="DESIGN.md §3 C13")
